@@ -5,11 +5,11 @@ go 1.26
 require (
 	github.com/pion/dtls/v3 v3.0.0
 	github.com/pion/logging v0.2.4
+	golang.org/x/crypto v0.48.0
 )
 
 require (
 	github.com/pion/transport/v4 v4.1.0 // indirect
-	golang.org/x/crypto v0.48.0 // indirect
 	golang.org/x/sys v0.41.0 // indirect
 )
 
